@@ -19,6 +19,7 @@ import (
 	"hash/fnv"
 	"io"
 	"net"
+	"os"
 	"sort"
 	"strings"
 	"sync"
@@ -683,6 +684,11 @@ func init() {
 	})
 }
 
+// judgeNested: also judge failures inside a nested reroute pipeline whose
+// client address is itself a possible rewrite output (see runPipe). Off: the
+// unchanged code translates such results twice; see NOTES.md.
+var judgeNested = os.Getenv("VERIF_C09_JUDGE_NESTED") == "1"
+
 func hash01(parts ...string) float64 {
 	h := fnv.New64a()
 	for _, s := range parts {
@@ -849,30 +855,123 @@ func runPipe(t *testing.T, r *rep.Reporter, c *rep.Case, idx int) {
 		}
 		level2[k][a] = outs
 	}
+	source := map[string][]string{}
 
-	// addresses some table produces from a DIFFERENT key (N-to-1 / overlap bookkeeping)
-	tableOutput := map[string]bool{}
-	for _, tbl := range []map[string][]string{global, level2[1], level2[2]} {
-		for k, vs := range tbl {
-			for _, v := range vs {
-				if v != k {
-					tableOutput[strings.ToLower(v)] = true
+	// Chained aliases on purpose (half of the configurations): m0 -> m1 -> m2
+	// (-> m3), every step an entry of its own in the global, per-source,
+	// destination (d1) or nested reroute (d2) table, and the client naming 1-3
+	// members of the chain. Every effective address still has ONE original
+	// unless two named members collapse onto the same address (steps in
+	// successive scopes are walked by one recipient) - that is observed, not
+	// predicted.
+	var chainNamed []string
+	innerTbl := level2[2]
+	isInner := func(m map[string][]string) bool { return fmt.Sprintf("%p", m) == fmt.Sprintf("%p", innerTbl) }
+	nChains := 0
+	if p.Chance(1, 2) {
+		nChains = p.Range(1, 2)
+	}
+	for ci := 0; ci < nChains; ci++ {
+		steps := p.Range(2, 3)
+		members := make([]string, steps+1)
+		for j := range members {
+			members[j] = fmt.Sprintf("k%d_%d@d%d.example", ci, j, p.Intn(3))
+		}
+		sameScope := p.Chance(1, 2) // the classic: all steps in one table
+		scope0 := p.Intn(2)
+		for j := 0; j < steps; j++ {
+			key := members[j]
+			outs := []string{members[j+1]}
+			if p.Chance(1, 4) {
+				outs = append(outs, newAddr("x"))
+			}
+			_, dom := splitAddr(key)
+			var cands []map[string][]string
+			if sameScope {
+				cands = []map[string][]string{[]map[string][]string{global, source}[scope0]}
+			} else {
+				cands = []map[string][]string{global, source}
+				if dom == "d1.example" {
+					cands = append(cands, level2[1], level2[1])
+				}
+				if dom == "d2.example" {
+					cands = append(cands, level2[2])
 				}
 			}
+			tbl := prng.Pick(p, cands)
+			if isInner(tbl) {
+				// never a chain INSIDE the nested table (an inner output that is an
+				// inner key): the unchanged code can then report under an address
+				// nobody supplied; kept out of the workload, see NOTES.md
+				bad := false
+				for k, vs := range tbl {
+					for _, v := range vs {
+						if v == key {
+							bad = true
+						}
+					}
+					for _, o := range outs {
+						if o == k {
+							bad = true
+						}
+					}
+				}
+				if bad {
+					tbl = global
+				}
+			}
+			if _, dup := tbl[key]; !dup {
+				tbl[key] = outs
+			}
 		}
+		nNamed := p.Range(1, 3)
+		for _, j := range p.Perm(len(members) - 1)[:min(nNamed, len(members)-1)] {
+			chainNamed = append(chainNamed, members[j])
+		}
+	}
+	clients = append(clients, chainNamed...)
+
+	// Bookkeeping for the not-judged sets (from the generated tables, never
+	// from the pipeline's own OriginalRcpts map): every address some table can
+	// produce; keys of the nested pipeline's table; whether that table chains.
+	tableValue := map[string]bool{}
+	for _, tbl := range []map[string][]string{global, source, level2[1], level2[2]} {
+		for _, vs := range tbl {
+			for _, v := range vs {
+				tableValue[strings.ToLower(v)] = true
+			}
+		}
+	}
+	innerKey := map[string]bool{}
+	for k := range level2[2] {
+		innerKey[strings.ToLower(k)] = true
+	}
+	innerChain := false
+	for _, vs := range level2[2] {
+		for _, v := range vs {
+			if innerKey[strings.ToLower(v)] {
+				innerChain = true
+			}
+		}
+	}
+	if innerChain {
+		t.Fatalf("harness bug: generated a chain inside the nested table\n%v", level2[2])
 	}
 
 	var sb strings.Builder
 	fmt.Fprintf(&sb, "modify {\n    c09_bodymod %s\n}\n", tag)
 	sb.WriteString(tableText("", global))
-	sb.WriteString("destination d1.example {\n")
-	sb.WriteString(tableText("    ", level2[1]))
-	fmt.Fprintf(&sb, "    deliver_to &%s\n    deliver_to &%s\n}\n", tgts[1].InstName, tgts[2].InstName)
-	sb.WriteString("destination d2.example {\n    reroute {\n")
-	sb.WriteString(tableText("        ", level2[2]))
-	fmt.Fprintf(&sb, "        deliver_to &%s\n    }\n}\n", tgts[3].InstName)
-	fmt.Fprintf(&sb, "default_destination {\n    deliver_to &%s\n}\n", tgts[0].InstName)
+	sb.WriteString("default_source {\n")
+	sb.WriteString(tableText("    ", source))
+	sb.WriteString("    destination d1.example {\n")
+	sb.WriteString(tableText("        ", level2[1]))
+	fmt.Fprintf(&sb, "        deliver_to &%s\n        deliver_to &%s\n    }\n", tgts[1].InstName, tgts[2].InstName)
+	sb.WriteString("    destination d2.example {\n        reroute {\n")
+	sb.WriteString(tableText("            ", level2[2]))
+	fmt.Fprintf(&sb, "            deliver_to &%s\n        }\n    }\n", tgts[3].InstName)
+	fmt.Fprintf(&sb, "    default_destination {\n        deliver_to &%s\n    }\n}\n", tgts[0].InstName)
 	text := sb.String()
+	nestedTarget := tgts[3].InstName
 
 	pl, err := mx.BuildPipeline(text, nil)
 	if err != nil {
@@ -890,19 +989,31 @@ func runPipe(t *testing.T, r *rep.Reporter, c *rep.Case, idx int) {
 		if err != nil {
 			t.Fatalf("pipeline Start: %v", err)
 		}
-		pt := &pipeTxn{Accepted: map[string]bool{}, Failed: map[string]bool{}, Rewrote: map[string]bool{}, Effective: map[string]bool{}, Entangled: map[string]bool{}, FailedClean: map[string]bool{}}
+		pt := &pipeTxn{Accepted: map[string]bool{}, Failed: map[string]bool{}, Rewrote: map[string]bool{}, Effective: map[string]bool{}, Entangled: map[string]bool{}, FailedClean: map[string]bool{}, FailedNested: map[string]bool{}, Chained: map[string]bool{}}
 		n := p.Range(1, 5)
+		var must []string
+		for _, j := range p.Perm(len(chainNamed)) {
+			must = append(must, chainNamed[j])
+		}
+		if n < len(must) {
+			n = len(must) + p.Intn(2)
+		}
 		type eff struct {
 			delivery int
 			rcpt     string
 		}
 		effOf := map[string][]eff{}
-		outputOf := map[string][]string{} // effective recipient -> client-supplied addresses rewritten to it
+		ownersOf := map[string]map[string]bool{} // effective recipient -> client-supplied addresses it was handed to a target for
+		nestedDelivery := map[int]bool{}         // deliveries of the target inside the reroute
+		seenNested, seenTop := map[string]bool{}, map[string]bool{}
 		rcptErr := map[string]string{}
 		for i := 0; i < n; i++ {
 			a := variantCase(p, prng.Pick(p, clients))
 			if i > 0 && p.Chance(1, 10) {
 				a = pt.Supplied[p.Intn(len(pt.Supplied))]
+			}
+			if i < len(must) {
+				a = must[i] // the named chain members, always together
 			}
 			pt.Supplied = append(pt.Supplied, a)
 			before := lg.Len()
@@ -915,7 +1026,16 @@ func runPipe(t *testing.T, r *rep.Reporter, c *rep.Case, idx int) {
 				pt.Effective[e.Rcpt] = true
 				if e.Rcpt != a {
 					pt.Rewrote[a] = true
-					outputOf[e.Rcpt] = append(outputOf[e.Rcpt], a)
+				}
+				if ownersOf[e.Rcpt] == nil {
+					ownersOf[e.Rcpt] = map[string]bool{}
+				}
+				ownersOf[e.Rcpt][a] = true // accepted by the target or not
+				if e.Target == nestedTarget {
+					nestedDelivery[e.Delivery] = true
+					seenNested[e.Rcpt] = true
+				} else {
+					seenTop[e.Rcpt] = true
 				}
 				if e.Class == mx.OK {
 					effOf[a] = append(effOf[a], eff{e.Delivery, e.Rcpt})
@@ -965,39 +1085,29 @@ func runPipe(t *testing.T, r *rep.Reporter, c *rep.Case, idx int) {
 				tlog = append(tlog, e.String())
 			}
 		}
-		// entanglement (N-to-1): who else leads to the same effective recipient
-		ownersOf := map[string]map[string]bool{}
-		for a, l := range effOf {
-			for _, ef := range l {
-				if ownersOf[ef.rcpt] == nil {
-					ownersOf[ef.rcpt] = map[string]bool{}
-				}
-				ownersOf[ef.rcpt][a] = true
-			}
-		}
-		suppliedSet := map[string]bool{}
-		for _, a := range pt.Supplied {
-			suppliedSet[a] = true
-		}
-		// a's results cannot be attributed to a alone if one of its effective
-		// recipients is shared with another client-supplied address, is itself
-		// another client-supplied address, or if a is what another
-		// client-supplied address was rewritten to (OriginalRcpts then maps a's
-		// own address - and, through a nested pipeline, a's results - elsewhere).
-		shared := func(a, e string) bool {
-			if len(ownersOf[e]) > 1 || (e != a && suppliedSet[e]) {
-				return true
-			}
-			for _, other := range outputOf[a] {
-				if other != a {
-					return true
-				}
-			}
-			// ... including as an intermediate address no target ever sees
-			// (known from the generated tables, not from the system under test)
-			return tableOutput[strings.ToLower(a)]
-		}
+		// Which failures can be attributed to ONE client-supplied recipient.
+		//
+		// collision (genuine N-to-1, contested, not judged): the effective
+		// recipient was handed to a target on behalf of two different
+		// client-supplied addresses in this transaction; OriginalRcpts keeps one.
+		//
+		// nested (suspected defect of the unchanged code, not judged unless
+		// VERIF_C09_JUDGE_NESTED=1): the delivery sits inside a reroute, whose
+		// statusCollector and the outer one both translate through the SAME
+		// OriginalRcpts map; if the client address itself is something a table
+		// can produce (a chain), the second translation walks one alias too far.
+		// Decided conservatively from the generated tables.
+		//
+		// Everything else - including chains where the effective address of one
+		// recipient is the client spelling of another that is rewritten further -
+		// is judged.
 		nFailed := 0
+		hazard := false
+		for e, os := range ownersOf {
+			if len(os) > 1 || (seenNested[e] && seenTop[e]) {
+				hazard = true // also when the colliding AddRcpt calls were refused in the end
+			}
+		}
 		if modFail {
 			r.Count("pipe_transactions_failed_by_body_modifier", 1)
 		}
@@ -1007,12 +1117,24 @@ func runPipe(t *testing.T, r *rep.Reporter, c *rep.Case, idx int) {
 				pt.FailedClean[a] = true
 			}
 			for _, ef := range effOf[a] {
-				if shared(a, ef.rcpt) {
+				// (an address delivered both inside and outside the reroute has two
+				// writers in the map as well, even for one owner)
+				collision := len(ownersOf[ef.rcpt]) > 1 || (seenNested[ef.rcpt] && seenTop[ef.rcpt])
+				if collision || nestedDelivery[ef.delivery] && (tableValue[strings.ToLower(a)] || innerKey[strings.ToLower(ef.rcpt)]) {
+					hazard = true
+				}
+				nested := nestedDelivery[ef.delivery] &&
+					(tableValue[strings.ToLower(a)] || innerChain || innerKey[strings.ToLower(ef.rcpt)])
+				if collision {
 					pt.Entangled[a] = true
 				}
 				if failedAt[ef] || wholeFail[ef.delivery] {
 					pt.Failed[a] = true
-					if !shared(a, ef.rcpt) {
+					switch {
+					case collision:
+					case nested:
+						pt.FailedNested[a] = true
+					default:
 						pt.FailedClean[a] = true
 					}
 				}
@@ -1020,11 +1142,38 @@ func runPipe(t *testing.T, r *rep.Reporter, c *rep.Case, idx int) {
 			if pt.Failed[a] {
 				nFailed++
 			}
+			if tableValue[strings.ToLower(a)] {
+				pt.Chained[a] = true
+				r.Count("pipe_client_rcpt_that_is_also_a_rewrite_output", 1)
+				if pt.FailedClean[a] {
+					r.Count("pipe_chained_client_rcpt_failures_judged", 1)
+				}
+			}
 		}
 		r.Count("pipe_client_rcpt_entangled_n_to_1", int64(len(pt.Entangled)))
-		fs, unj := judgePipe(pt)
-		if unj > 0 {
-			r.Count("pipe_entangled_missing_failure_observed_not_judged", int64(unj))
+		pt.JudgeNested = judgeNested
+		// The nested pipeline records ITS client address (an outer rewrite
+		// output routed into the reroute, domain d2) in the shared map; in a
+		// collision / nested-chain transaction the unchanged code can report
+		// under it. Such a key is excused (counted) only in those transactions.
+		if hazard && !judgeNested {
+			pt.Excused = map[string]bool{}
+			for _, k := range pt.Calls {
+				lk := strings.ToLower(k.Key)
+				if _, dom := splitAddr(lk); dom == "d2.example" && tableValue[lk] {
+					pt.Excused[k.Key] = true
+				}
+			}
+		}
+		fs, unjCollision, unjNested, excused := judgePipe(pt)
+		if excused > 0 {
+			r.Count("pipe_foreign_key_nested_client_address_observed_not_judged", int64(excused))
+		}
+		if unjCollision > 0 {
+			r.Count("pipe_collision_missing_failure_observed_not_judged", int64(unjCollision))
+		}
+		if unjNested > 0 {
+			r.Count("pipe_nested_chain_missing_failure_observed_not_judged", int64(unjNested))
 		}
 		effList := map[string][]string{}
 		for a, l := range effOf {
@@ -1035,7 +1184,7 @@ func runPipe(t *testing.T, r *rep.Reporter, c *rep.Case, idx int) {
 		wit := map[string]any{
 			"group": "pipeline", "transaction": tx, "config": text, "supplied": pt.Supplied, "accepted": sortedKeys(pt.Accepted),
 			"addrcpt_errors": rcptErr, "effective_recipients_accepted_by_targets": effList, "target_results": tlog,
-			"setstatus_calls": pt.Calls, "failed_client_recipients": sortedKeys(pt.Failed), "entangled_not_judged": sortedKeys(pt.Entangled),
+			"setstatus_calls": pt.Calls, "failed_client_recipients": sortedKeys(pt.Failed), "collisions_not_judged": sortedKeys(pt.Entangled), "client_rcpts_that_are_rewrite_outputs": sortedKeys(pt.Chained),
 		}
 		report(r, c, fs, wit)
 		countCalls(r, "pipe", pt.Calls)
@@ -1055,7 +1204,7 @@ func runPipe(t *testing.T, r *rep.Reporter, c *rep.Case, idx int) {
 		if nRew > 0 {
 			nontrivial = true
 		}
-		shape = append(shape, fmt.Sprintf("[rew=%d fan=%d failed=%d refused=%d entangled=%v]", nRew, maxFan, nFailed, len(rcptErr), len(pt.Entangled) > 0))
+		shape = append(shape, fmt.Sprintf("[rew=%d fan=%d failed=%d refused=%d collision=%v chained=%d]", nRew, maxFan, nFailed, len(rcptErr), len(pt.Entangled) > 0, len(pt.Chained)))
 	}
 	var parts []string
 	for _, st := range tgts {
